@@ -647,6 +647,8 @@ def run(c, facts):
     c.shared(R8, c15.r6_doc_sync, 'C15.R6', facts)
     c.shared(R8, c15.r4_change, 'C15.R4', facts)
     import c10
+    import c11 as _c11
+    c.run(lambda c: _c11.r14_report_units(c, facts, rule='C13.R17'))
     R16 = c.rule('C13.R16', 'IMPORT-ERRORS: an import that cannot be found or that closes a cycle (a self import included) is an error of the load every front end goes through, so all of them fail on it (shared with C10.R1, C10.R2, C10.R4)')
     c.shared(R16, c10.r1_once, 'C10.R1', facts)
     c.shared(R16, c10.r2_edge_agree, 'C10.R2', facts)
